@@ -787,6 +787,9 @@ class Interp:
                 return Cond(c if isinstance(op, ast.Eq) else c_not(c))
         if isinstance(op, (ast.LtE,)) and isinstance(l, TL) and isinstance(r, TL):
             return self.tl_method(l, "__le__", [r], {}, e)
+        if isinstance(op, (ast.GtE,)) and isinstance(l, TL) and isinstance(r, TL) and self.prog.resolve_method("TermList", "__ge__") is None:
+            # no __ge__ is defined: Python evaluates  l >= r  through the reflected  r.__le__(l)
+            return self.tl_method(r, "__le__", [l], {}, e)
         return Cond(("op", "cmp(%s)" % norm(e)))
 
     def ev_Attribute(self, e, env):
